@@ -338,6 +338,12 @@ class Evaluator(object):
                 d.items[k.v] = v
             elif isinstance(d, Sym) and getattr(d, "keys", None) is not None and isinstance(k, K):
                 d.keys[k.v] = v
+            elif isinstance(d, K) and (d.v is None or isinstance(d.v, (bool, int, float, str, bytes, tuple, frozenset))):
+                raise _Raise("TypeError")        # item assignment on None / a number / an immutable value
+            elif isinstance(d, L) and isinstance(k, K) and isinstance(k.v, int) and not isinstance(k.v, bool):
+                if not (-len(d.elts) <= k.v < len(d.elts)):
+                    raise _Raise("IndexError")
+                d.elts[k.v] = v
             else:
                 raise AnalysisError("subscript store not modelled: %s" % dump(t))
         elif isinstance(t, (ast.Tuple, ast.List)):
@@ -397,6 +403,14 @@ class Evaluator(object):
                     raise AnalysisError("non-constant dict key")
                 d.items[kk.v] = self.expr(v, env, fi)
             return d
+        if isinstance(e, ast.Set):
+            vals = [self.expr(x, env, fi) for x in e.elts]
+            if all(isinstance(x, K) for x in vals):
+                try:
+                    return K(frozenset(x.v for x in vals))
+                except TypeError:
+                    raise _Raise("TypeError")
+            raise AnalysisError("set display with non-constant members: %s" % dump(e))
         if isinstance(e, ast.List):
             return L([self.expr(x, env, fi) for x in e.elts])
         if isinstance(e, ast.Tuple):
@@ -595,6 +609,8 @@ class Evaluator(object):
                         r = av in bv
                     except TypeError:
                         raise _Raise("TypeError")
+                elif okb and isinstance(bv, (set, frozenset)) and isinstance(a, (D, L)):
+                    raise _Raise("TypeError")        # membership in a set hashes the operand: lists / dicts are unhashable
                 elif okb and isinstance(a, (Sym, D, L, Obj)):
                     # an opaque symbol / fresh container is distinct from every listed constant
                     r = False
@@ -874,6 +890,10 @@ class Evaluator(object):
                 if args[0].v in base.keys:
                     return base.keys[args[0].v]
                 return args[1] if len(args) > 1 else K(None)
+            if f.attr == "setdefault" and isinstance(base, D) and args and isinstance(args[0], K):
+                if args[0].v not in base.items:
+                    base.items[args[0].v] = args[1] if len(args) > 1 else K(None)
+                return base.items[args[0].v]
             if f.attr == "setdefault" and isinstance(base, Sym) and getattr(base, "keys", None) is not None \
                     and isinstance(args[0], K):
                 if args[0].v not in base.keys:
